@@ -462,11 +462,12 @@ def _api_forms(ctx, rng, check):
             ctx.fail('nonlinear-kwarg-array-times-field',
                      f'NonlinearForm(lambda u, v, w: w["c"] * u * u * v).assemble(basis, x=x, c=<{kind}>) raises {type(e).__name__}: {e} '
                      '(a NumPy array / DiscreteField parameter as LEFT operand of a field; u * u * v * w["c"] works)', dict(desc, c=kind, c_value=np.asarray(c).tolist()))
-    cov['NonlinearForm integrand: NumPy parameter (op) field (parameter on the left)'] = 'now: FAILS on the current tree (key nonlinear-kwarg-array-times-field)'
+    cov['NonlinearForm integrand: NumPy parameter (op) field (parameter on the left)'] = 'now: vs the hand-linearised NumPy form (key nonlinear-kwarg-array-times-field)'
     # the array protocol of the field wrapper
     u = JaxDiscreteField(value=jnp.asarray(np.array([[1., 2.], [3., 4.]])))
     ctx.count(('api', 'jdf-array-protocol'), nontrivial=True)
-    for nm, fn in (('np.asarray(field)', lambda: np.asarray(u)), ('np.exp(field)', lambda: np.exp(u)), ('jnp.asarray(field)', lambda: jnp.asarray(u))):
+    for nm, fn in (('np.asarray(field)', lambda: np.asarray(u)), ('np.exp(field)', lambda: np.exp(u)), ('jnp.asarray(field)', lambda: jnp.asarray(u)),
+                   ('jnp.exp(field)', lambda: jnp.exp(u))):
         try:
             got = np.asarray(fn(), dtype=float)
             exp = np.array([[1., 2.], [3., 4.]]) if 'exp' not in nm else np.exp(np.array([[1., 2.], [3., 4.]]))
@@ -477,7 +478,7 @@ def _api_forms(ctx, rng, check):
                      {'call': nm, 'field_value': [[1., 2.], [3., 4.]]})
     if tuple(u.shape) != (2, 2) or not np.array_equal(np.asarray(u[0]), [1., 2.]) or len(u.astuple) != 9:
         ctx.fail('api:jdf-shape-getitem', 'JaxDiscreteField.shape / __getitem__ / astuple', {})
-    cov['JaxDiscreteField.__array__ (np.asarray / np.exp / jnp.asarray of a field)'] = 'now: FAILS on the current tree (key jdf-array-protocol)'
+    cov['JaxDiscreteField.__array__ / __jax_array__ (np.asarray / np.exp / jnp.asarray / jnp.exp of a field)'] = 'now: equal the value array (key jdf-array-protocol)'
     cov['JaxDiscreteField.shape / __getitem__ / astuple'] = 'now'
     # partial, decorator options, facet bases, x given as zeros / None
     JA, rA = NonlinearForm(lambda u, v, w: 3. * u * u * v).assemble(basis, x=x0)
@@ -509,12 +510,14 @@ def _api_forms(ctx, rng, check):
     ctx.count(('api', 'coo_data'), nontrivial=True)
     try:
         cd = NonlinearForm(lambda u, v, w: u * u * v).coo_data(basis, x=x0)
-        ok = hasattr(cd, '__len__') and len(cd) == 2
+        el = NonlinearForm(lambda u, v, w: u * u * v).elemental(basis, x=x0)
+        ok = (hasattr(cd, '__len__') and len(cd) == 2 and np.array_equal(cd[0].data, el[0].data) and np.array_equal(cd[0].indices, el[0].indices)
+              and np.array_equal(cd[1].data, el[1].data))
         if not ok:
             ctx.fail('nonlinearform-coo_data', 'NonlinearForm.coo_data does not return the (matrix, vector) pair of elemental()', desc)
     except Exception as e:  # noqa: BLE001
         ctx.fail('nonlinearform-coo_data', f'NonlinearForm(form).coo_data(basis, x=x) (alias of elemental inherited from Form) raises {type(e).__name__}: {e}', desc)
-    cov['Form.coo_data (deprecated alias) on NonlinearForm'] = 'now: FAILS on the current tree (key nonlinearform-coo_data)'
+    cov['NonlinearForm.coo_data (deprecated alias of elemental)'] = 'now: same COO data as elemental (key nonlinearform-coo_data)'
     cov.update({'NonlinearForm.assemble / _assemble / elemental (x vector, hessian option, composite, vector, H(div)/H(curl)/C1 elements)': 'covered before',
                 'JaxDiscreteField arithmetic special methods': 'covered before (theorem + operator oracle + integrands)',
                 'every function of skfem/helpers.py and skfem/autodiff/helpers.py (float, int64, complex, trailing shapes, fields)': 'covered before',
